@@ -43,13 +43,24 @@ func sgForeignCodecs(r *vfRand, kind string, st *sgPTState) []sgFCodec {
 		st.used, st.byID = map[int]bool{}, map[string]int{}
 	}
 	fresh := func() int {
-		for {
-			p := 96 + r.Intn(31)
+		for try := 0; try < 64; try++ {
+			p := 96 + r.Intn(32)
 			if !st.used[p] {
 				st.used[p] = true
 				return p
 			}
 		}
+		for _, p := range append(r.perm(32), r.perm(29)...) { // dynamic ranges 96-127, then 35-63
+			q := 96 + p
+			if st.used[q] {
+				q = 35 + p%29
+			}
+			if !st.used[q] {
+				st.used[q] = true
+				return q
+			}
+		}
+		return 127 // exhausted: the description reuses a payload type (still one codec per number below)
 	}
 	pt := fresh
 	defer func() {}()
@@ -88,6 +99,18 @@ func sgForeignCodecs(r *vfRand, kind string, st *sgPTState) []sgFCodec {
 			"level-asymmetry-allowed=1;packetization-mode=1;profile-level-id=640032"}), fb: fb[:r.Intn(3)]})
 		if r.Bool(0.4) {
 			out = append(out, sgFCodec{pt: pt(), name: "rtx/90000", fmtp: fmt.Sprintf("apt=%d", v)})
+		}
+		// browsers list several H264 configurations, each under its own payload type
+		for k := r.Intn(3); k > 0; k-- {
+			v2 := pt()
+			out = append(out, sgFCodec{pt: v2, name: "H264/90000", fmtp: vfPick(r, []string{
+				"level-asymmetry-allowed=1;packetization-mode=0;profile-level-id=42e01f",
+				"level-asymmetry-allowed=1;packetization-mode=1;profile-level-id=4d001f",
+				"level-asymmetry-allowed=1;packetization-mode=1;profile-level-id=640032",
+				"level-asymmetry-allowed=1;packetization-mode=0;profile-level-id=42001f"}), fb: fb[:r.Intn(3)]})
+			if r.Bool(0.4) {
+				out = append(out, sgFCodec{pt: pt(), name: "rtx/90000", fmtp: fmt.Sprintf("apt=%d", v2)})
+			}
 		}
 	}
 	if r.Bool(0.3) {
@@ -277,7 +300,8 @@ var sgForeignExts = []string{"urn:ietf:params:rtp-hdrext:sdes:mid", "http://www.
 // "" normal, "text" includes a text m-section, "nodir" omits direction attributes.
 func sgForeignOffer(r *vfRand, shape int, flavor string, fs *sgForeignSession) string {
 	midStyles := [][]string{{"0", "1", "2", "3", "4", "5", "6", "7"}, {"audio", "video", "data", "v2", "a2", "v3", "a3", "x"}, {"7", "3", "12", "40", "5", "41", "2", "9"},
-		{"a1", "0", "x-y", "9", "m4", "1", "zz", "q"}, {"1", "2", "3", "4", "5", "6", "7", "8"}}
+		{"a1", "0", "x-y", "9", "m4", "1", "zz", "q"}, {"1", "2", "3", "4", "5", "6", "7", "8"},
+		{"3", "2", "5", "4", "1", "0", "7", "6"}, {"10", "1", "100", "video-hd", "video", "vid", "v", "2"}, {"2", "1", "0", "4", "3", "6", "5", "8"}}
 	if fs.mids == nil {
 		fs.mids = midStyles[((shape%len(midStyles))+len(midStyles))%len(midStyles)]
 	}
@@ -288,13 +312,29 @@ func sgForeignOffer(r *vfRand, shape int, flavor string, fs *sgForeignSession) s
 		}
 	}
 	newSection := func(i int, last bool) sgFSection {
-		s := sgFSection{mid: fs.mids[i%len(fs.mids)], port: 9, setup: "actpass", msid: r.Bool(0.7)}
+		// the next mid of the session's style that no section uses yet
+		used := map[string]bool{}
+		for _, e := range fs.secs {
+			used[e.mid] = true
+		}
+		mid := ""
+		for k := 0; k < len(fs.mids) && mid == ""; k++ {
+			if c := fs.mids[(i+k)%len(fs.mids)]; !used[c] {
+				mid = c
+			}
+		}
+		for k := 0; mid == ""; k++ {
+			if c := fmt.Sprintf("n%d", k); !used[c] {
+				mid = c
+			}
+		}
+		s := sgFSection{mid: mid, port: 9, setup: "actpass", msid: r.Bool(0.7)}
 		switch x := r.Intn(10); {
 		case x < 4:
 			s.kind = "audio"
 		case x < 8:
 			s.kind = "video"
-		case x < 9 && !hasApp:
+		case x < 9 && (!hasApp || flavor == "twoapp"):
 			s.kind = "application"
 			hasApp = true
 		default:
@@ -347,8 +387,8 @@ func sgForeignAnswer(r *vfRand, offer string, variant int, fs *sgForeignSession)
 	for _, o := range p.Sections {
 		mid, _ := o.Mid()
 		s := sgFSection{kind: o.Kind, mid: mid, port: 9, setup: vfPick(r, []string{"active", "passive"})}
-		if o.Port == 0 {
-			s.port = 0
+		if o.Port == 0 || (o.Kind == "application" && variant%5 == 4) {
+			s.port = 0 // e.g. an endpoint without data channel support rejects the application section
 		}
 		if o.Kind == "audio" || o.Kind == "video" {
 			od := o.Direction()
